@@ -300,6 +300,47 @@ theorem DD_old {g g' : Graph} (hi : Inv g) (hc : ∀ k, ∀ m ∈ g.mx k, m < g.
         exact hc b x hb
     exact ⟨(hsame x hx').2, (hsame x hx').1⟩
 
+/-- pointwise relation between two lists -/
+inductive All2 {α β : Type} (R : α → β → Prop) : List α → List β → Prop
+  | nil : All2 R [] []
+  | cons {x : α} {y : β} {xs : List α} {ys : List β} : R x y → All2 R xs ys → All2 R (x :: xs) (y :: ys)
+
+theorem All2.imp {α β : Type} {R S : α → β → Prop} (h : ∀ x y, R x y → S x y) {xs : List α} {ys : List β}
+    (hr : All2 R xs ys) : All2 S xs ys := by
+  induction hr with
+  | nil => exact All2.nil
+  | cons h1 _ ih => exact All2.cons (h _ _ h1) ih
+
+theorem All2.append {α β : Type} {R : α → β → Prop} {xs xs' : List α} {ys ys' : List β}
+    (h1 : All2 R xs ys) (h2 : All2 R xs' ys') : All2 R (xs ++ xs') (ys ++ ys') := by
+  induction h1 with
+  | nil => exact h2
+  | cons h _ ih => exact All2.cons h ih
+
+theorem All2.getD {α β : Type} {R : α → β → Prop} {xs : List α} {ys : List β} (h : All2 R xs ys)
+    {dx : α} {dy : β} (hd : R dx dy) (i : Nat) : R (xs[i]?.getD dx) (ys[i]?.getD dy) := by
+  induction h generalizing i with
+  | nil => simpa using hd
+  | cons h1 _ ih =>
+    cases i with
+    | zero => simpa using h1
+    | succ i => simpa using ih i
+
+theorem All2.get {α β : Type} {R : α → β → Prop} {xs : List α} {ys : List β} (h : All2 R xs ys)
+    (i : Nat) (x : α) (hx : xs[i]? = some x) : ∃ y, ys[i]? = some y ∧ R x y := by
+  induction h generalizing i with
+  | nil => simp at hx
+  | cons h1 _ ih =>
+    cases i with
+    | zero => simp at hx; subst hx; exact ⟨_, by simp, h1⟩
+    | succ i => simp at hx; simpa using ih i hx
+
+theorem All2.length_eq {α β : Type} {R : α → β → Prop} {xs : List α} {ys : List β} (h : All2 R xs ys) :
+    xs.length = ys.length := by
+  induction h with
+  | nil => rfl
+  | cons _ _ ih => simp [ih]
+
 namespace ClassBody
 
 /-! ## the translation state and its abstract graph -/
@@ -382,6 +423,287 @@ theorem Snap.regAll (n : Nat) (ds : List Def) : ∀ {st : TState} {a : AG}, Snap
 
 theorem regs_append (ds1 ds2 : List Def) (o : List (Def × Int)) : regs (ds1 ++ ds2) o = regs ds2 (regs ds1 o) := by
   simp [regs, List.foldl_append]
+
+end ClassBody
+
+namespace ClassBody
+
+/-! ## `asNode` / `mixAll` -/
+
+theorem not_anc_of_nodesc {mx : Nat → List Nat} {n m : Nat} (h : ∀ k, n ∉ mx k) : ¬ Anc mx n m := by
+  intro ha
+  obtain ⟨b, hb, _⟩ := ha.top_cases
+  exact h b hb
+
+/-- a function holding exactly the definition `d` (a plain function turned into an overloaded one) -/
+def LeafAt (a : AG) (m : Nat) (d : Def) : Prop := a.mx m = [] ∧ a.ow m = regs [d] []
+
+/-- what `asNode` returns for an attribute -/
+def MixRel (a' : AG) (lo : Nat) : Attr → Nat → Prop
+  | .node m' _, m => m = m'
+  | .plain d, m => lo ≤ m ∧ m < a'.len ∧ LeafAt a' m d
+  | .none, _ => False
+
+theorem MixRel.mono {a' : AG} {lo lo' : Nat} (h : lo' ≤ lo) {x : Attr} {m : Nat} (hr : MixRel a' lo x m) :
+    MixRel a' lo' x m := by
+  cases x with
+  | none => exact hr
+  | plain d => exact ⟨Nat.le_trans h hr.1, hr.2⟩
+  | node m' fl => exact hr
+
+/-- admissible arguments of `asNode`: existing functions other than `n`, or plain functions -/
+def ArgOK (len n : Nat) : Attr → Prop
+  | .node m _ => m < len ∧ m ≠ n
+  | .plain _ => True
+  | .none => False
+
+theorem ArgOK.mono {len len' n : Nat} (h : len ≤ len') {x : Attr} (hx : ArgOK len n x) : ArgOK len' n x := by
+  cases x with
+  | none => exact hx
+  | plain d => trivial
+  | node m fl => exact ⟨Nat.lt_of_lt_of_le hx.1 h, hx.2⟩
+
+theorem regs_single (d : Def) : regs [d] [] = setDefn 1 [] d 0 := rfl
+
+theorem mixAll_spec (n : Nat) : ∀ (attrs : List Attr) (st : TState) (a : AG), Snap st a → n < a.len →
+    (∀ k, n ∉ a.mx k) → (∀ x ∈ attrs, ArgOK a.len n x) →
+    ∃ a' ms, Snap (mixAll st n attrs) a' ∧ a.len ≤ a'.len ∧
+      (∀ k, k < a.len → k ≠ n → a'.mx k = a.mx k ∧ a'.ow k = a.ow k) ∧
+      a'.ow n = a.ow n ∧ a'.mx n = a.mx n ++ ms ∧ (∀ k, n ∉ a'.mx k) ∧
+      All2 (MixRel a' a.len) attrs ms ∧
+      (mixAll st n attrs).attr = st.attr ∧ (mixAll st n attrs).hasF = st.hasF := by
+  intro attrs
+  induction attrs with
+  | nil =>
+    intro st a h _ hnd _
+    exact ⟨a, [], h, Nat.le_refl _, fun _ _ _ => ⟨rfl, rfl⟩, rfl, by simp, hnd, All2.nil, rfl, rfl⟩
+  | cons x rest ih =>
+    intro st a h hn hnd hargs
+    have hx := hargs x (by simp)
+    cases x with
+    | none => exact hx.elim
+    | node m' fl =>
+      obtain ⟨hm', hne⟩ := hx
+      have hok : a.ok (.addMixins n [m']) := by
+        refine ⟨hn, fun m hm => ?_⟩
+        rw [List.mem_singleton] at hm; subst hm
+        exact ⟨hm', hne, not_anc_of_nodesc hnd⟩
+      have h2 := h.addMixins n [m'] hok
+      have hnd2 : ∀ k, n ∉ (a.step (.addMixins n [m'])).mx k := by
+        intro k hk
+        have hk' : n ∈ upd a.mx n (a.mx n ++ [m']) k := hk
+        unfold upd at hk'
+        split at hk'
+        · rcases List.mem_append.mp hk' with h1 | h1
+          · exact hnd n h1
+          · rw [List.mem_singleton] at h1; exact hne h1.symm
+        · exact hnd k hk'
+      obtain ⟨a', ms, s1, s2, s3, s4, s5, s6, s7, s8, s9⟩ := ih (st.emit (.addMixins n [m'])) _ h2 hn hnd2
+        (fun y hy => hargs y (by simp [hy]))
+      refine ⟨a', m' :: ms, s1, s2, ?_, s4, ?_, s6, All2.cons rfl s7, s8, s9⟩
+      · intro k hk hkn
+        obtain ⟨t1, t2⟩ := s3 k hk hkn
+        refine ⟨t1.trans ?_, t2⟩
+        exact upd_ne _ _ _ _ hkn
+      · rw [s5]
+        show upd a.mx n (a.mx n ++ [m']) n ++ ms = _
+        rw [upd_same]; simp
+    | plain d =>
+      have hlen := h.len
+      have h1 := (h.create [] (fun m hm => nomatch hm)).register a.len d (Nat.lt_succ_self _)
+      have hnd1 : ∀ k, n ∉ ((a.step (.create [] false)).step (.register a.len d)).mx k := by
+        intro k hk
+        have hk' : n ∈ upd a.mx a.len [] k := hk
+        unfold upd at hk'
+        split at hk'
+        · cases hk'
+        · exact hnd k hk'
+      have hmxl : ((a.step (.create [] false)).step (.register a.len d)).mx a.len = [] := upd_same _ _ _
+      have hok : ((a.step (.create [] false)).step (.register a.len d)).ok (.addMixins n [a.len]) := by
+        refine ⟨Nat.lt_succ_of_lt hn, fun m hm => ?_⟩
+        rw [List.mem_singleton] at hm; subst hm
+        exact ⟨Nat.lt_succ_self _, by omega, not_anc_of_nodesc hnd1⟩
+      have h2 := h1.addMixins n [a.len] hok
+      have hnd2 : ∀ k, n ∉ (((a.step (.create [] false)).step (.register a.len d)).step (.addMixins n [a.len])).mx k := by
+        intro k hk
+        have hk' : n ∈ upd (upd a.mx a.len []) n (upd a.mx a.len [] n ++ [a.len]) k := hk
+        unfold upd at hk'
+        split at hk'
+        · rw [if_neg (by omega)] at hk'
+          rcases List.mem_append.mp hk' with h1 | h1
+          · exact hnd n h1
+          · rw [List.mem_singleton] at h1; omega
+        · split at hk'
+          · cases hk'
+          · exact hnd k hk'
+      have hst : mixAll st n (.plain d :: rest) =
+          mixAll (((st.create []).1.emit (.register a.len d)).emit (.addMixins n [a.len])) n rest := by
+        rw [hlen]; rfl
+      rw [hst]
+      obtain ⟨a', ms, s1, s2, s3, s4, s5, s6, s7, s8, s9⟩ := ih _ _ h2 (Nat.lt_succ_of_lt hn) hnd2
+        (fun y hy => (hargs y (by simp [hy])).mono (Nat.le_succ _))
+      have hl2 : (((a.step (.create [] false)).step (.register a.len d)).step (.addMixins n [a.len])).len = a.len + 1 := rfl
+      rw [hl2] at s2 s3 s7
+      have hne : a.len ≠ n := by omega
+      refine ⟨a', a.len :: ms, s1, by omega, ?_, ?_, ?_, s6, All2.cons ⟨Nat.le_refl _, by omega, ?_, ?_⟩
+        (s7.imp (fun _ _ hr => MixRel.mono (Nat.le_succ _) hr)), s8, s9⟩
+      · intro k hk hkn
+        obtain ⟨t1, t2⟩ := s3 k (by omega) hkn
+        refine ⟨t1.trans ?_, t2.trans ?_⟩
+        · show upd (upd a.mx a.len []) n _ k = _
+          rw [upd_ne _ _ _ _ hkn, upd_ne _ _ _ _ (by omega)]
+        · show upd a.ow a.len _ k = _
+          rw [upd_ne _ _ _ _ (by omega)]
+      · rw [s4]
+        show upd a.ow a.len _ n = _
+        rw [upd_ne _ _ _ _ (by omega)]
+      · rw [s5]
+        show upd (upd a.mx a.len []) n (upd a.mx a.len [] n ++ [a.len]) n ++ ms = _
+        rw [upd_same, upd_ne _ _ _ _ (by omega)]; simp
+      · rw [(s3 a.len (by omega) hne).1]
+        show upd (upd a.mx a.len []) n _ a.len = _
+        rw [upd_ne _ _ _ _ hne, upd_same]
+      · rw [(s3 a.len (by omega) hne).2]
+        show upd a.ow a.len (setDefn ((a.ow a.len).length + 1) (a.ow a.len) d 0) a.len = _
+        rw [upd_same, h.closed.2 a.len (Nat.le_refl _)]; rfl
+
+end ClassBody
+
+namespace ClassBody
+
+theorem asNode_spec (st : TState) (a : AG) (x : Attr) (h : Snap st a) (hx : ArgOK a.len a.len x) :
+    ∃ a', Snap (st.asNode x).1 a' ∧ a.len ≤ a'.len ∧
+      (∀ k, k < a.len → a'.mx k = a.mx k ∧ a'.ow k = a.ow k) ∧
+      MixRel a' a.len x (st.asNode x).2 ∧ (st.asNode x).2 < a'.len ∧
+      (st.asNode x).1.attr = st.attr ∧ (st.asNode x).1.hasF = st.hasF := by
+  cases x with
+  | none => exact hx.elim
+  | node m fl => exact ⟨a, h, Nat.le_refl _, fun _ _ => ⟨rfl, rfl⟩, rfl, hx.1, rfl, rfl⟩
+  | plain d =>
+    have hlen := h.len
+    have h1 := (h.create [] (fun m hm => nomatch hm)).register a.len d (Nat.lt_succ_self _)
+    have hst : st.asNode (.plain d) = ((st.create []).1.emit (.register a.len d), a.len) := by
+      rw [hlen]; rfl
+    rw [hst]
+    refine ⟨_, h1, Nat.le_succ _, fun k hk => ⟨?_, ?_⟩, ⟨Nat.le_refl _, Nat.lt_succ_self _, ?_, ?_⟩,
+      Nat.lt_succ_self _, rfl, rfl⟩
+    · show upd a.mx a.len [] k = _
+      rw [upd_ne _ _ _ _ (by omega)]
+    · show upd a.ow a.len _ k = _
+      rw [upd_ne _ _ _ _ (by omega)]
+    · show upd a.mx a.len [] a.len = _
+      rw [upd_same]
+    · show upd a.ow a.len (setDefn ((a.ow a.len).length + 1) (a.ow a.len) d 0) a.len = _
+      rw [upd_same, h.closed.2 a.len (Nat.le_refl _)]; rfl
+
+/-! ## attributes and effective method sets -/
+
+/-- what a class holds (model) against the documented effective method set (specification) -/
+def RelAE (nn : Nat) (D : Nat → List (Def × Int)) : Attr → Eff → Prop
+  | .none, e => e.kind = .none
+  | .plain d, e => e.kind = .plain ∧ e.fn = some d ∧ e.defns = nodeDefns [] [d]
+  | .node n fl, e => e.kind = .ovld ∧ e.flagged = fl ∧ n < nn ∧ D n = e.defns
+
+theorem RelAE.mono {nn nn' : Nat} {D D' : Nat → List (Def × Int)} (hle : nn ≤ nn')
+    (hD : ∀ m, m < nn → D' m = D m) {x : Attr} {e : Eff} (h : RelAE nn D x e) : RelAE nn' D' x e := by
+  cases x with
+  | none => exact h
+  | plain d => exact h
+  | node n fl => exact ⟨h.1, h.2.1, Nat.lt_of_lt_of_le h.2.2.1 hle, (hD n h.2.2.1).trans h.2.2.2⟩
+
+def nd : Attr → Nat × Bool
+  | .node n f => (n, f)
+  | _ => (0, false)
+
+def plainOf : Attr → Option Def
+  | .plain d => some d
+  | _ => none
+
+theorem filterMap_congr_mem {α β : Type} (f g : α → Option β) (l : List α) (h : ∀ x ∈ l, f x = g x) :
+    l.filterMap f = l.filterMap g := by
+  induction l with
+  | nil => rfl
+  | cons x l ih =>
+    rw [List.filterMap_cons, List.filterMap_cons, h x (by simp), ih (fun y hy => h y (by simp [hy]))]
+
+theorem filterMap_ite {α β : Type} (c : α → Bool) (f : α → β) (l : List α) :
+    l.filterMap (fun x => if c x then some (f x) else none) = (l.filter c).map f := by
+  induction l with
+  | nil => rfl
+  | cons x l ih =>
+    by_cases hc : c x = true
+    · simp [hc, ih]
+    · simp [hc, ih]
+
+theorem RelAE.nodeOf {nn : Nat} {D : Nat → List (Def × Int)} {x : Attr} {e : Eff} (h : RelAE nn D x e) :
+    nodeOf x = if e.kind == .ovld then some (nd x) else none := by
+  cases x with
+  | none => have : e.kind = .none := h; simp [ClassBody.nodeOf, this]
+  | plain d => have : e.kind = .plain := h.1; simp [ClassBody.nodeOf, this]
+  | node n fl => have : e.kind = .ovld := h.1; simp [ClassBody.nodeOf, this, nd]
+
+theorem RelAE.isSome {nn : Nat} {D : Nat → List (Def × Int)} {x : Attr} {e : Eff} (h : RelAE nn D x e) :
+    x.isSome = (e.kind != .none) := by
+  cases x with
+  | none => have : e.kind = .none := h; simp [Attr.isSome, this]
+  | plain d => have : e.kind = .plain := h.1; simp [Attr.isSome, this]
+  | node n fl => have : e.kind = .ovld := h.1; simp [Attr.isSome, this]
+
+theorem RelAE.plainOf {nn : Nat} {D : Nat → List (Def × Int)} {x : Attr} {e : Eff} (h : RelAE nn D x e) :
+    plainOf x = if e.kind == .plain then e.fn else none := by
+  cases x with
+  | none => have : e.kind = .none := h; simp [ClassBody.plainOf, this]
+  | plain d => have : e.kind = .plain := h.1; simp [ClassBody.plainOf, this, h.2.1]
+  | node n fl => have : e.kind = .ovld := h.1; simp [ClassBody.plainOf, this]
+
+section pairs
+variable {nn : Nat} {D : Nat → List (Def × Int)} (P : List (Attr × Eff)) (hp : ∀ p ∈ P, RelAE nn D p.1 p.2)
+include hp
+
+theorem pairs_ovlds : (P.map (·.1)).filterMap nodeOf =
+    (P.filter (fun p => p.2.kind == .ovld)).map (fun p => nd p.1) := by
+  rw [List.filterMap_map, ← filterMap_ite]
+  apply filterMap_congr_mem
+  intro p hpm
+  exact (hp p hpm).nodeOf
+
+theorem pairs_some : (P.map (·.1)).filter Attr.isSome = (P.filter (fun p => p.2.kind != .none)).map (·.1) := by
+  rw [List.filter_map]
+  congr 1
+  apply List.filter_congr
+  intro p hpm
+  exact (hp p hpm).isSome
+
+theorem pairs_plain : (P.map (·.1)).filterMap plainOf =
+    (P.map (·.2)).filterMap (fun e => if e.kind == .plain then e.fn else none) := by
+  rw [List.filterMap_map, List.filterMap_map]
+  apply filterMap_congr_mem
+  intro p hpm
+  exact (hp p hpm).plainOf
+
+end pairs
+
+theorem pairs_ov (P : List (Attr × Eff)) : (P.map (·.2)).filter (fun e => e.kind == .ovld) =
+    (P.filter (fun p => p.2.kind == .ovld)).map (·.2) := by
+  rw [List.filter_map]; rfl
+
+theorem pairs_inh (P : List (Attr × Eff)) : (P.map (·.2)).filter (fun e => e.kind != .none) =
+    (P.filter (fun p => p.2.kind != .none)).map (·.2) := by
+  rw [List.filter_map]; rfl
+
+/-- the `__prepare__` loop over the bases' values registers the plain functions -/
+theorem plainFold (pre : Nat) (f : TState → Attr → TState)
+    (hf : ∀ st v, f st v = match plainOf v with | some d => st.emit (.register pre d) | none => st) :
+    ∀ (vs : List Attr) (st : TState), vs.foldl f st = regAll st pre (vs.filterMap plainOf) := by
+  intro vs
+  induction vs with
+  | nil => intro st; rfl
+  | cons v vs ih =>
+    intro st
+    rw [List.foldl_cons, ih, hf]
+    cases hv : plainOf v with
+    | none => simp [hv]
+    | some d => simp [hv, regAll]
 
 end ClassBody
 
